@@ -51,20 +51,35 @@ class Pki:
         self.ca_cert = self._make_ca("vf C03 throw-away CA", self.ca_key)
         self.other_ca_key = ec.generate_private_key(ec.SECP256R1())
         self.other_ca_cert = self._make_ca("vf C03 untrusted CA", self.other_ca_key)
+        # intermediates: one under the trusted CA (positive control for chain building), one under the rogue root
+        self.inter_key = ec.generate_private_key(ec.SECP256R1())
+        self.inter_cert = self._make_ca("vf C03 trusted intermediate", self.inter_key, issuer=(self.ca_cert, self.ca_key))
+        self.other_inter_key = ec.generate_private_key(ec.SECP256R1())
+        self.other_inter_cert = self._make_ca("vf C03 untrusted intermediate", self.other_inter_key, issuer=(self.other_ca_cert, self.other_ca_key))
 
     @staticmethod
-    def _make_ca(cn, key):
+    def _make_ca(cn, key, issuer=None):
         return (
             x509.CertificateBuilder()
             .subject_name(_name(cn))
-            .issuer_name(_name(cn))
+            .issuer_name(_name(cn) if issuer is None else issuer[0].subject)
             .public_key(key.public_key())
             .serial_number(x509.random_serial_number())
             .not_valid_before(_now() - datetime.timedelta(days=2))
             .not_valid_after(_now() + datetime.timedelta(days=30))
             .add_extension(x509.BasicConstraints(ca=True, path_length=None), critical=True)
-            .sign(key, hashes.SHA256())
+            .sign(key if issuer is None else issuer[1], hashes.SHA256())
         )
+
+    def chain_for(self, flavour: str):
+        """certificates the server sends after its leaf for the given flavour"""
+        return {
+            "untrusted-ca+root-in-chain": [self.other_ca_cert],
+            "untrusted-inter+root-in-chain": [self.other_inter_cert, self.other_ca_cert],
+            "untrusted-inter-in-chain": [self.other_inter_cert],
+            "good-via-intermediate": [self.inter_cert],
+            "good+ca-in-chain": [self.ca_cert],
+        }.get(flavour, [])
 
     @property
     def ca_pem(self) -> bytes:
@@ -84,6 +99,10 @@ class Pki:
         not-yet       CA-signed, validity starts tomorrow
         self-signed   self-signed for cn (not in the trust store)
         untrusted-ca  signed by a CA the client does not trust
+        untrusted-ca+root-in-chain / untrusted-inter+root-in-chain / untrusted-inter-in-chain
+                      as above, and the server also sends the rogue root / intermediate after its leaf (chain_for)
+        good-via-intermediate   signed by an intermediate of the trusted CA which the server sends along (must complete)
+        good+ca-in-chain        good leaf, the trusted CA itself sent along (must complete)
         """
         ck = (kind, flavour, cn)
         if ck in self._leaf:
@@ -97,8 +116,12 @@ class Pki:
             nb, na = _now() + datetime.timedelta(days=1), _now() + datetime.timedelta(days=10)
         if flavour == "self-signed":
             issuer_name, issuer_key = _name(subject_cn), key
-        elif flavour == "untrusted-ca":
+        elif flavour in ("untrusted-ca", "untrusted-ca+root-in-chain"):
             issuer_name, issuer_key = self.other_ca_cert.subject, self.other_ca_key
+        elif flavour in ("untrusted-inter+root-in-chain", "untrusted-inter-in-chain"):
+            issuer_name, issuer_key = self.other_inter_cert.subject, self.other_inter_key
+        elif flavour == "good-via-intermediate":
+            issuer_name, issuer_key = self.inter_cert.subject, self.inter_key
         else:
             issuer_name, issuer_key = self.ca_cert.subject, self.ca_key
         cert = (
